@@ -84,7 +84,8 @@ def write_replay(prop, rec):
     d = os.path.join(HERE, "replays", prop)
     os.makedirs(d, exist_ok=True)
     key = hashlib.blake2b(json.dumps(rec["case"], sort_keys=True).encode(), digest_size=6).hexdigest()
-    path = os.path.join(d, f"{rec['alg']}-{rec['kind']}-{key}.json")
+    safe = lambda t: ''.join(c if c.isalnum() or c in '._-' else '_' for c in str(t))[:60]
+    path = os.path.join(d, f"{safe(rec['alg'])}-{safe(rec['kind'])}-{key}.json")
     with open(path, "w") as f:
         json.dump(rec, f, indent=1, sort_keys=True)
     return os.path.relpath(path, HERE)
